@@ -57,7 +57,7 @@ def confirm(raw_dir, tag, prop, letter):
         out['demo_ok'] = (rc0 == 0 and rc1 == 1)
         checks = {}
         for chk in EXTRA.get('%s/%s' % (prop, letter), [prop]):
-            env = dict(os.environ, VERIF_REPO=repo)
+            env = dict(os.environ, VERIF_REPO=repo, VERIF_OUT=scratch + '/out')
             rc, o = sh('cd %s && ./check %s --tier quick' % (ROOT, chk), env=env, timeout=2400)
             viol = [l for l in o.splitlines() if l.startswith('VIOLATION')]
             checks[chk] = dict(exit=rc, violations=[re.sub(r'^VIOLATION property=\S+ replay=replays/\S+?/', '', v)[:160] for v in viol][:6],
